@@ -47,10 +47,6 @@ func hashFrame(p *load.Prog, r *report.Report, prop string, names ...string) {
 				r.Fail(prop+".inputs-readonly", n, p.Pos(w.Leaf().Pos), "the function may write into its msg/DST argument ("+w.Chain(p)+"): when msg and DST share a buffer the hashed message is altered, so the result is not a function of (msg, DST)")
 			}
 		}
-		for k, w := range sum.Unmodelled {
-			bad = true
-			r.Undecided(prop+".inputs-readonly", n+" reaches "+k, p.Pos(w.Leaf().Pos), "callee without an effect model")
-		}
 		if !bad {
 			r.OK(prop+".inputs-readonly", n, "msg and DST are only read (E2 effect summary): the result cannot depend on slice layout or aliasing")
 		}
